@@ -28,7 +28,8 @@ MODELLED = {
                   'Buffer.setn': 'bsetn', 'Buffer.get': 'bget', 'Buffer.getn': 'bgetn',
                   'Buffer.gen': 'bgen', 'Buffer.normalize': 'bnorm', 'Buffer.sine1': 'bsine1',
                   'Buffer.sine2': 'bsine2', 'Buffer.sine3': 'bsine3', 'Buffer.cheby': 'bcheby',
-                  'Buffer.copy_data': 'bcopy'},
+                  'Buffer.copy_data': 'bcopy', 'Buffer.read': 'bread/bloadlist', 'Buffer.write': 'bwrite',
+                  'Buffer.alloc_read': 'ballocread', 'Buffer.cue': 'bcue'},
     'server.py': {'Server._free_all_buffers': 'bfreeall', 'Server.bind': 'bind/end/raise',
                   'Server.free_default_group': 'freedg', 'Server.reorder': 'reorder',
                   'Server.sync': 'sync (through addr.sync; BundleNetAddr.sync inside bind blocks)'},
@@ -37,8 +38,7 @@ MODELLED = {
 UNMODELLED = {
     'node.py': {'AbstractGroup.query_tree', 'Synth.seti'},
     'bus.py': set(),
-    'buffer.py': {'Buffer.alloc_read', 'Buffer.alloc_read_channel', 'Buffer.read', 'Buffer.read_channel',
-                  'Buffer.cue', 'Buffer.write', 'Buffer.update_info', 'Buffer._stream_list',
+    'buffer.py': {'Buffer.alloc_read_channel', 'Buffer.read_channel', 'Buffer.update_info', 'Buffer._stream_list',
                   'Buffer.get_to_list', 'Buffer.prepare_partconv'},
     'server.py': {'Server.dump_osc', 'Server._send_default_groups',
                   'Server._send_default_groups_for_client_ids', 'Server._boot_init', 'Server.quit',
@@ -247,6 +247,12 @@ def conforms(msg):
         return fixed([is_int, is_int, is_int], compl)
     if cmd in ('/b_free', '/b_zero', '/b_close'):
         return fixed([is_int], compl)
+    if cmd == '/b_read':
+        return fixed([is_int, is_str, is_int, is_int, is_int, is_flag], compl)
+    if cmd == '/b_allocRead':
+        return fixed([is_int, is_str, is_int, is_int], compl)
+    if cmd == '/b_write':
+        return fixed([is_int, is_str, is_str, is_str, is_int, is_int, is_flag], compl)
     if cmd == '/b_set':
         return fixed([is_int], rest(G.seq(is_int, is_num)))
     if cmd == '/b_setn':
@@ -303,6 +309,9 @@ def parse_line(line):
         elif p.startswith('B '):
             time, _, body = p[2:].partition(' ')
             pkts.append(('B', time, [m for m in body.split(' ;| ') if m]))
+        elif p.startswith('X '):
+            port, _, body = p[2:].partition(' ')
+            pkts.append(('X', port, [body]))
         elif p.startswith('E '):
             exc, _, body = p[2:].partition(' ')
             pkts.append(('E', exc, [body]))
@@ -358,7 +367,7 @@ class Check(common.Check):
         'synth_create_uses_own_id', 'group_create_uses_own_id', 'next_node_id_is_allocator_id',
         'buffer_create_uses_own_id', 'consecutive_create_uses_own_ids', 'consecutive_explicit_uses_given_ids',
         'buffer_free_once_and_returns_id', 'buffer_double_free_silent', 'free_all_frees_every_id_once',
-        'node_cmds_use_object_id', 'buffer_cmds_use_object_bufnum', 'bus_cmds_use_object_index',
+        'sub_bus_inside_parent', 'node_cmds_use_object_id', 'buffer_cmds_use_object_bufnum', 'bus_cmds_use_object_index',
         'corewf_step', 'corewf_init', 'add_actions_table_ok')]
     N_QUICK = 400
     N_THOROUGH = 6000
@@ -427,6 +436,12 @@ class Check(common.Check):
         return '( ' + body + (' )' if body else ')')
 
     def gen_target(self, rng, st):
+        if st.get('second'):
+            # on a second (non-default) server a None / int target means Server.default by design:
+            # objects of THIS server are created in its own default group or relative to its nodes
+            if st['node'] and rng.random() < 0.6:
+                return f'n{rng.randrange(st["node"])}'
+            return 'S'
         r = rng.random()
         if r < 0.3 or not st['node']:
             return rng.choice(['N', 'N', 'S', f'i{rng.choice([0, 1, 1000, 7])}'])
@@ -442,7 +457,8 @@ class Check(common.Check):
                            '( s/b_zero i1 ( s/b_query i1 ) )'])
 
     def gen_case(self, rng):
-        st = {'node': 0, 'bus': 0, 'cbus': [], 'buf': 0, 'depth': 0, 'groups': [], 'synths': []}
+        st = {'node': 0, 'bus': 0, 'cbus': [], 'buf': 0, 'depth': 0, 'groups': [], 'synths': [],
+              'second': rng.random() < 0.3}
         ops = []
         nops = rng.choice([rng.randint(3, 12), rng.randint(10, 30), rng.randint(25, 60)])
         flavour = rng.choice(['nodes', 'buffers', 'buses', 'mixed', 'mixed', 'bind'])
@@ -564,6 +580,16 @@ class Check(common.Check):
                         if ops[-1].startswith('synth'):
                             st['synths'].append(st['node']); st['node'] += 1
                     continue
+                if rng.random() < 0.15:
+                    # derived buses at and beyond the boundary of the parent (channel counts are 1..4)
+                    off = rng.randint(0, 4)
+                    ops.append(f'subbus b{bi} i{off} i{rng.choice([1, 1, 2, max(1, 4 - off), max(1, 5 - off), 3])}')
+                    if bi in st['cbus']:
+                        st['cbus'].append(st['bus'])
+                    st['bus'] += 1
+                    if rng.random() < 0.6 and bi in st['cbus']:
+                        ops.append(f'csetn b{st["bus"] - 1} {self.gen_numlist(rng, rng.randint(1, 3))}')
+                    continue
                 m = rng.choice(['busfree', 'busfree', 'cset', 'csetn', 'csetat', 'csetnat', 'cpairs', 'cfill',
                                 'cclear', 'cget', 'cgetn'])
                 if bi not in st['cbus'] and m != 'busfree':
@@ -609,11 +635,22 @@ class Check(common.Check):
                 u = f'u{rng.randrange(st["buf"])}'
                 m = rng.choice(['bfree', 'bfree', 'bfree', 'bfreeall', 'bzero', 'bclose', 'bfill', 'bset', 'bsetn',
                                 'bquery', 'bget', 'bgetn', 'bgen', 'bsine1', 'bsine2', 'bsine3', 'bcheby', 'bnorm',
-                                'bcopy', 'balloc'])
+                                'bcopy', 'balloc', 'bread', 'bloadlist', 'bwrite', 'ballocread', 'bcue'])
                 if m in ('bfree', 'bzero', 'bclose', 'balloc'):
                     ops.append(f'{m} {u} {self.gen_completion(rng)}')
                 elif m == 'bfreeall':
                     ops.append('bfreeall')
+                elif m == 'bread':
+                    ops.append(f'bread {u} i{rng.choice([0, 3, 100])} i{rng.choice([-1, 8, 64])} i{rng.choice([0, 2, 5])} {rng.choice("TF")}')
+                elif m == 'bloadlist':
+                    ops.append(f'bloadlist {u} i{rng.choice([0, 1, 3, 6])}')
+                elif m == 'bwrite':
+                    ops.append(f'bwrite {u} s{rng.choice(["aiff", "wav"])} i{rng.choice([-1, 8, 64])} i{rng.choice([0, 2, 5])} '
+                               f'{rng.choice("TF")} {self.gen_completion(rng)}')
+                elif m == 'ballocread':
+                    ops.append(f'ballocread {u} i{rng.choice([0, 3, 100])} i{rng.choice([-1, 8, 64])} {self.gen_completion(rng)}')
+                elif m == 'bcue':
+                    ops.append(f'bcue {u} i{rng.choice([0, 3, 100])} {self.gen_completion(rng)}')
                 elif m == 'bfill':
                     more = f' i{rng.randint(0, 8)} i{rng.randint(1, 8)} {self.gen_num(rng)}' if rng.random() < 0.3 else ''
                     ops.append(f'bfill {u} i{rng.randint(0, 8)} i{rng.randint(1, 8)} ( {self.gen_num(rng)}{more} )')
@@ -646,6 +683,7 @@ class Check(common.Check):
         while st['depth'] and rng.random() < 0.8:
             ops.append('end'); st['depth'] -= 1
         opts = {'client_id': rng.choice([0, 0, 1, 3]), 'max_logins': 4, 'running': rng.random() < 0.6,
+                'default': not st['second'],
                 'latency': rng.choice(['1/4', '1/8', '0', None]), 'buffers': rng.choice([64, 1024])}
         return {'opts': opts, 'ops': ops}
 
@@ -789,6 +827,7 @@ class Check(common.Check):
         handles_buf = []           # bufnum per buffer handle (None after free)
         handles_bus = []           # (audio?, index, channels) per bus handle (None after free)
         handles_node = []          # node id per node handle
+        frames_buf = []            # frames per buffer handle
         alloc_owned = set()        # buffer numbers taken from the allocator by a Buffer and not yet given back
         blocks = []                # used blocks of the buffer allocator (from the status suffix)
         depth, block_msgs, aligned = 0, [], len(W) == len(T)
@@ -815,6 +854,9 @@ class Check(common.Check):
             # -- everything that reaches the wire, and everything the twin emits, must be encodable and conform
             for where, pkts in (('', pk), (' (unbound twin)', tpk)):
                 for kind, info, msgs in pkts:
+                    if kind == 'X':
+                        return {'what': f'op #{i} `{line}`{where}: `{msgs[0][:120]}` was sent to port {info}, not to the '
+                                        f'server the object belongs to', 'signature': 'server:wrong-socket', 'index': i}
                     if kind == 'E':
                         cmd = msgs[0].split()[0] if msgs else '?'
                         return {'what': f'op #{i} `{line}`{where}: the OSC encoder rejects the emitted message '
@@ -902,6 +944,44 @@ class Check(common.Check):
                     handles_bus.append((op.startswith('a'), int(mbus.group(1)), int(line.split()[1][1:])))
                 elif tst.startswith(('ok', 'exc')):
                     handles_bus.append(None)
+            if op == 'subbus':
+                w = line.split()
+                hb, off, ch = int(w[1][1:]), int(w[2][1:]), int(w[3][1:])
+                par = handles_bus[hb] if hb < len(handles_bus) else None
+                if tst.startswith(('ok', 'exc')) and par is not None:
+                    inside = 0 <= off and off + ch <= par[2]
+                    if mbus and not inside:
+                        return {'what': f'op #{i} `{line}`: parent bus has indices [{par[1]}, {par[1] + par[2]}), the '
+                                        f'derived bus [{par[1] + off}, {par[1] + off + ch}) reaches outside and was accepted',
+                                'signature': 'bus:sub-range', 'index': i}
+                    if inside and (not mbus or int(mbus.group(1)) != par[1] + off):
+                        return {'what': f'op #{i} `{line}`: a derived bus inside the parent must be accepted at index '
+                                        f'{par[1] + off}, got `{tst}`', 'signature': 'bus:sub-range', 'index': i}
+                if mbus:
+                    handles_bus.append((par[0] if par else False, int(mbus.group(1)), ch))
+                elif tst.startswith(('ok', 'exc')):
+                    handles_bus.append(None) if tst.startswith('ok') else None
+            # -- file commands: argument positions as documented (Server Command Reference / docstrings)
+            if op in ('bread', 'bloadlist', 'bwrite', 'ballocread', 'bcue') and tst.startswith('ok'):
+                w = line.split()
+                hu = int(w[1][1:])
+                bn = handles_buf[hu] if hu < len(handles_buf) else None
+                fr = frames_buf[hu] if hu < len(frames_buf) else None
+                ts = split_tokens(tmsgs[0]) if tmsgs else []
+                tf = {'T': 'T', 'F': 'F'}
+                if op == 'bread':       # bufnum path fileStart numFrames bufStart leaveOpen {/b_query bufnum}
+                    want = ['/b_read', f'i{bn}', 's/tmp/c17in.wav', w[2], w[3], w[4], tf[w[5]], f'{{/b_query i{bn}}}']
+                elif op == 'bloadlist':  # the list goes to buffer frame `start`: bufStart = start, whole file
+                    want = ['/b_read', f'i{bn}', 'sPATH', 'i0', 'i-1', w[2], 'F', f'{{/b_query i{bn}}}']
+                elif op == 'bwrite':    # bufnum path header sample numFrames startFrame leaveOpen
+                    want = ['/b_write', f'i{bn}', f's/tmp/c17out.{w[2][1:]}', w[2], 'sint24', w[3], w[4], tf[w[5]]]
+                elif op == 'ballocread':  # bufnum path startFrame numFrames
+                    want = ['/b_allocRead', f'i{bn}', 's/tmp/c17in.wav', w[2], w[3]]
+                else:                   # cue: fill the whole buffer from file frame `start`, leave the file open
+                    want = ['/b_read', f'i{bn}', 's/tmp/c17in.wav', w[2], f'i{fr}', 'i0', 'T']
+                if bn is not None and ts[:len(want)] != want:
+                    return {'what': f'op #{i} `{line}` must emit `{" ".join(want)} …`, emitted `{tmsgs[:1]}`',
+                            'signature': f'positions:{op}', 'index': i}
             if op == 'busfree' and tst.startswith('ok'):
                 hb = int(line.split()[1][1:])
                 if hb < len(handles_bus):
@@ -946,6 +1026,7 @@ class Check(common.Check):
             if mbuf and op in ('buf', 'bufx', 'bufna', 'bufcons', 'bufconsx'):
                 ids = [int(x) for x in mbuf.group(1).split(',')]
                 handles_buf.extend(ids)
+                frames_buf.extend([int(line.split()[2 if op in ('bufcons', 'bufconsx') else 1][1:])] * len(ids))
                 if op != 'bufna':
                     got = [split_tokens(m) for m in tmsgs]
                     if [g[:2] for g in got] != [['/b_alloc', f'i{x}'] for x in ids]:
@@ -960,6 +1041,7 @@ class Check(common.Check):
                     return {'what': f'op #{i} `{line}`: ids {ids} not consecutive', 'signature': 'buffer:consecutive'}
             elif op in ('buf', 'bufx', 'bufna') and tst.startswith(('ok', 'exc')) and not mbuf:
                 handles_buf.append(None)
+                frames_buf.append(None)
             if op == 'bfree' and tst.startswith('ok'):
                 h = int(line.split()[1][1:])
                 if h < len(handles_buf):
